@@ -284,7 +284,8 @@ fn make_pair_pre_conditions<'a, T: DataType>() -> [PairPreCondition<'a, T>; 7] {
                 (ParsedToken::Paren(_p @ Paren::Close), ParsedToken::Num(_))
                 | (ParsedToken::Paren(_p @ Paren::Close), ParsedToken::Var(_))
                 | (ParsedToken::Num(_), ParsedToken::Paren(_p @ Paren::Open))
-                | (ParsedToken::Var(_), ParsedToken::Paren(_p @ Paren::Open)) => make_err(
+                | (ParsedToken::Var(_), ParsedToken::Paren(_p @ Paren::Open))
+                | (ParsedToken::Paren(_p @ Paren::Close), ParsedToken::Paren(Paren::Open)) => make_err(
                     "wlog a number/variable cannot be on the right of a closing parenthesis",
                     left,
                     right,
